@@ -216,3 +216,73 @@ def mk_circuit(ns, name="circuit"):
 
 def overrides():
     return {"np": NP, "reduce": reduce_stub}
+
+
+# ------------------------------------------------------------------------------------------------
+# native replay of a (candidate) counter-model: concrete circuits with the lengths / widths of the model
+
+_PRE = """
+import numpy as np
+from orquestra.quantum.circuits import Circuit, X, T, RX, CNOT, S
+def mk(length, width):
+    length = max(0, min(int(length), 6)); width = max(1, min(int(width), 5))
+    pool = [X(0), T(0), RX(0.3)(0), S(0)] + ([CNOT(0, 1)] if width > 1 else [])
+    return Circuit([pool[j % len(pool)] for j in range(length)], n_qubits=width)
+"""
+
+
+def _num(model, key, default):
+    v = model.get(key, default)
+    return v if isinstance(v, int) and not isinstance(v, bool) else default
+
+
+def replay(kind):
+    def code(model):
+        if kind == "append":
+            return _PRE + f"""
+c1, c2 = mk({_num(model, 'circuit.len', 1)}, {_num(model, 'circuit.n_qubits', 1)}), mk({_num(model, 'other.len', 0)}, {_num(model, 'other.n_qubits', 2)})
+s = c1 + c2
+OK = bool(s.n_qubits == max(c1.n_qubits, c2.n_qubits) and list(s.operations) == list(c1.operations) + list(c2.operations))
+OBSERVED = f"Circuit({{len(c1.operations)}} ops, n_qubits={{c1.n_qubits}}) + Circuit({{len(c2.operations)}} ops, n_qubits={{c2.n_qubits}}) has width {{s.n_qubits}} and {{len(s.operations)}} operations"
+"""
+        L, W = _num(model, "self.len", 2), _num(model, "self.n_qubits", 2)
+        if kind == "to_unitary":
+            return _PRE + f"""
+c = mk({L}, {W})
+U = np.array(c.to_unitary(), dtype=complex)
+V = np.eye(2 ** c.n_qubits, dtype=complex)
+for op in c.operations:
+    V = np.array(op.lifted_matrix(c.n_qubits), dtype=complex) @ V
+OK = bool(U.shape == V.shape and np.allclose(U, V, atol=1e-9))
+OBSERVED = f"to_unitary of {{len(c.operations)}} operations on {{c.n_qubits}} qubits: shape {{U.shape}}, deviation from the ordered product {{abs(U - V).max() if U.shape == V.shape else 'n/a'}}"
+"""
+        if kind == "inverse":
+            return _PRE + f"""
+c = mk({L}, {W})
+i = c.inverse()
+OK = bool(i.n_qubits == c.n_qubits and [(o.gate, o.qubit_indices) for o in i.operations] == [(o.gate.dagger, o.qubit_indices) for o in reversed(c.operations)])
+OBSERVED = f"inverse of {{c}} is {{i}}"
+"""
+        if kind == "controlled":
+            k = _num(model, "control_index", 0)
+            return _PRE + f"""
+c = mk({L}, {W}); k = max(0, min({k}, 7))
+cc = c.controlled(k)
+sh = lambda q: q + 1 if q >= k else q
+OK = bool(cc.n_qubits == max(c.n_qubits, k) + 1 and [(o.gate, o.qubit_indices) for o in cc.operations] == [(o.gate.controlled(1), (k,) + tuple(sh(q) for q in o.qubit_indices)) for o in c.operations])
+OBSERVED = f"controlled({{k}}) of {{c}} (width {{c.n_qubits}}) is {{cc}} (width {{cc.n_qubits}})"
+"""
+        if kind == "bind":
+            return _PRE + f"""
+import sympy
+th = sympy.Symbol("theta")
+c = mk({L}, {W}) + Circuit([RX(th)(0)])
+c = Circuit(list(c.operations), n_qubits={max(1, min(W, 5))} + 1)
+b = c.bind({{sympy.Symbol("other"): 1.0}})
+b2 = c.bind({{th: 0.5}})
+OK = bool(b.n_qubits == c.n_qubits and list(b.operations) == [o.bind({{sympy.Symbol("other"): 1.0}}) for o in c.operations]
+          and b2.n_qubits == c.n_qubits and list(b2.operations) == [o.bind({{th: 0.5}}) for o in c.operations])
+OBSERVED = f"bind of a circuit of width {{c.n_qubits}} gives widths {{b.n_qubits}}, {{b2.n_qubits}}"
+"""
+        return None
+    return code
